@@ -776,17 +776,25 @@ theorem request_refines (cfg : Config) (rem : Nat) (incoming : Option (Nat × Ma
 
 /-- Every cookie the client holds or was ever handed carries an id the counter handed out. -/
 def ClientInv (c : Client κ ν) (n : Nat) : Prop :=
-  (∀ id cl, c.jar = some (id, cl) → id < n) ∧
-  (∀ (j : Nat) id cl, c.issued[j]? = some (some (id, cl)) → id < n)
+  (∀ t, c.jar = some t → t.id < n) ∧
+  (∀ (j : Nat) t, c.issued[j]? = some (some t) → t.id < n)
 
-theorem presented_lt (c : Client κ ν) (n : Nat) (hc : ClientInv c n) (src : Src) :
-    ∀ id cl, presented c src = some (id, cl) → id < n := by
-  intro id cl h
+theorem accept_id (cfg : Config) (t : Token κ ν) (id : Nat) (cl : Map κ ν)
+    (h : accept cfg t = some (id, cl)) : id = t.id := by
+  unfold accept at h
+  split at h
+  · simp at h; exact h.1.symm
+  · simp at h
+
+theorem sent_lt (c : Client κ ν) (n : Nat) (hc : ClientInv c n) (src : Src κ ν) :
+    ∀ t, sent c src = some t → t.id < n := by
+  intro t h
   cases src with
-  | jar => exact hc.1 id cl h
-  | none => simp [presented] at h
+  | jar => exact hc.1 t h
+  | none => simp [sent] at h
+  | parts j cli => simp [sent] at h
   | issued j =>
-    simp only [presented] at h
+    simp only [sent] at h
     cases hj : c.issued[j]? with
     | none => simp [hj] at h
     | some o =>
@@ -795,7 +803,34 @@ theorem presented_lt (c : Client κ ν) (n : Nat) (hc : ClientInv c n) (src : Sr
       | some p =>
         simp [hj] at h
         subst h
-        exact hc.2 j id cl hj
+        exact hc.2 j p hj
+
+theorem presented_lt (cfg : Config) (c : Client κ ν) (n : Nat) (hc : ClientInv c n) (src : Src κ ν) :
+    ∀ id cl, presented cfg c src = some (id, cl) → id < n := by
+  intro id cl h
+  have key : ∀ src', (sent c src').bind (accept cfg) = some (id, cl) → id < n := by
+    intro src' h'
+    cases hs : sent c src' with
+    | none => simp [hs] at h'
+    | some t =>
+      simp [hs] at h'
+      rw [accept_id cfg t id cl h']
+      exact sent_lt c n hc src' t hs
+  cases src with
+  | jar => exact key .jar h
+  | none => exact key .none h
+  | issued j => exact key (.issued j) h
+  | parts j cli =>
+    simp only [presented] at h
+    cases hj : c.issued[j]? with
+    | none => simp [hj] at h
+    | some o =>
+      cases o with
+      | none => simp [hj] at h
+      | some p =>
+        simp [hj] at h
+        rw [← h.1]
+        exact hc.2 j p hj
 
 theorem WInv_expire (pres : Option (Nat × Map κ ν)) (w : World κ ν) (hw : WInv w) : WInv (expire pres w) := by
   cases pres with
@@ -820,8 +855,11 @@ theorem history_refines (cfg : Config) (reqs : List (Req κ ν)) (c : Client κ 
   | nil => rfl
   | cons rq rest ih =>
     simp only [runHistory, Spec.runHistory, List.map_cons]
-    have hp := presented_lt c w.nextId hc rq.src
-    generalize presented c rq.src = pres at *
+    generalize reqCfg cfg rq.crypto = cfg'
+    have hp := presented_lt cfg' c w.nextId hc rq.src
+    have hs := sent_lt c w.nextId hc rq.src
+    generalize presented cfg' c rq.src = pres at *
+    generalize sent c rq.src = held at *
     -- the world the request starts from
     have hw1 : WInv (if rq.expire = true then expire pres w else w) := by
       split
@@ -843,9 +881,9 @@ theorem history_refines (cfg : Config) (reqs : List (Req κ ν)) (c : Client κ 
     rw [← ha2]
     have hn2 : ({ w1 with log := [] } : World κ ν).nextId = w.nextId := hn1
     generalize ({ w1 with log := [] } : World κ ν) = w2 at *
-    obtain ⟨r1, r2, r3, r4, r5, r6⟩ := request_refines cfg rq.rem pres rq.ops w2 hw2 (by rw [hn2]; exact hp)
-    generalize runRequest cfg rq.rem pres rq.ops w2 = m at *
-    generalize Spec.runRequest cfg true pres rq.ops (absW w2) = sp at *
+    obtain ⟨r1, r2, r3, r4, r5, r6⟩ := request_refines cfg' rq.rem pres rq.ops w2 hw2 (by rw [hn2]; exact hp)
+    generalize runRequest cfg' rq.rem pres rq.ops w2 = m at *
+    generalize Spec.runRequest cfg' true pres rq.ops (absW w2) = sp at *
     obtain ⟨rs, f, w3⟩ := m
     obtain ⟨rs', f', W3⟩ := sp
     simp only at r1 r2 r3 r4 r5 r6 ⊢
@@ -854,29 +892,27 @@ theorem history_refines (cfg : Config) (reqs : List (Req κ ν)) (c : Client κ 
     apply ih
     · exact r4
     · refine ⟨?_, ?_⟩
-      · intro id cl h
+      · intro t h
         cases f with
         | set id' c' =>
           simp [afterResponse] at h
-          obtain ⟨h1, _⟩ := h
-          subst h1
+          subst h
           exact r5 id' c' rfl
         | removal => simp [afterResponse] at h
-        | none => exact Nat.lt_of_lt_of_le (hp id cl h) (by omega)
-        | err e => exact Nat.lt_of_lt_of_le (hp id cl h) (by omega)
-        | panic => exact Nat.lt_of_lt_of_le (hp id cl h) (by omega)
-      · intro j id cl h
+        | none => exact Nat.lt_of_lt_of_le (hs t h) (by omega)
+        | err e => exact Nat.lt_of_lt_of_le (hs t h) (by omega)
+        | panic => exact Nat.lt_of_lt_of_le (hs t h) (by omega)
+      · intro j t h
         by_cases hj : j < c.issued.length
         · rw [List.getElem?_append_left hj] at h
-          exact Nat.lt_of_lt_of_le (hc.2 j id cl h) (by omega)
+          exact Nat.lt_of_lt_of_le (hc.2 j t h) (by omega)
         · rw [List.getElem?_append_right (by omega)] at h
           cases f with
           | set id' c' =>
             cases hk : j - c.issued.length with
             | zero =>
               simp [hk, issuedBy] at h
-              obtain ⟨h1, _⟩ := h
-              subst h1
+              subst h
               exact r5 id' c' rfl
             | succ k => simp [hk] at h
           | removal => cases hk : j - c.issued.length <;> simp [hk, issuedBy] at h
